@@ -39,6 +39,7 @@ fn worker(check: &str, tier: Tier, i: usize, n: usize, from: usize, only: Option
     enum Item { Ty(vcore::Entry), Seq(&'static str, Box<dyn seqs::SeqOps>), Mut(&'static str, &'static str, vcore::Entry), Twin(vcore::Entry, vcore::Entry) }
     let all: Vec<Item> = if check == "C16" { seqs::all().into_iter().map(|(id, o)| Item::Seq(id, o)).collect() }
         else if check == "C04" { universe::all().into_iter().map(Item::Ty).chain(mutants::all().into_iter().map(|(f, id, e)| Item::Mut(f, id, e))).collect() }
+        else if check == "C18" { universe::all().into_iter().map(Item::Ty).chain(seqs::all().into_iter().map(|(id, o)| Item::Seq(Box::leak(format!("schema of slice / iterator wrapper over {}", id).into_boxed_str()), o))).collect() }
         else if check == "C09" { universe::all().into_iter().map(Item::Ty).chain(seqs::all().into_iter().map(|(id, o)| Item::Seq(Box::leak(format!("loaded and serialized again: &[{}]", id).into_boxed_str()), o))).collect() }
         else if check == "C07" { universe::all().into_iter().map(Item::Ty).chain(seqs::all().into_iter().map(|(id, o)| Item::Seq(Box::leak(format!("slice / iterator wrapper over {}", id).into_boxed_str()), o))).collect() }
         else if check == "C13" { universe::all().into_iter().map(Item::Ty).chain(seqs::all().into_iter().map(|(id, o)| Item::Seq(Box::leak(format!("borrowed slice / iterator over {}", id).into_boxed_str()), o))).collect() }
@@ -75,6 +76,7 @@ fn worker(check: &str, tier: Tier, i: usize, n: usize, from: usize, only: Option
                 cx.type_id = b.id.to_string();
                 vcore::env::guarded(|| vcore::run_check(b.ops.as_ref(), check, &mut cx))
             }
+            Item::Seq(_, o) if check == "C18" => vcore::env::guarded(|| seqs::c18_wrappers(o.as_ref(), &mut cx)),
             Item::Seq(_, o) if check == "C09" => vcore::env::guarded(|| seqs::c09_reserialize(o.as_ref(), &mut cx)),
             Item::Seq(_, o) if check == "C07" => vcore::env::guarded(|| seqs::c07_wrappers(o.as_ref(), &mut cx)),
             Item::Seq(_, o) if check == "C13" => vcore::env::guarded(|| seqs::c13_borrowed(o.as_ref(), &mut cx)),
